@@ -1,4 +1,659 @@
+(* Properties/C03.v — "Division and remainder satisfy n = q*d + r with the documented rounding".
+   Every theorem is closed by `exact <lemma>`; the lemmas live in Proofs/Div*.v, Proofs/SignedAux.v.
+   All statements hold for EVERY digit width w > 0 and every digit count n (signed forms: n >= 1);
+   no power-of-two or w >= 2 side condition was needed.
+
+   Vocabulary (transparent definitions from the Proofs files):
+     URet w n o v   := exists r, o = Ret r /\ wf w n r /\ uval w r = v      (SignedAux)
+     SRet w n o v   := exists r, o = Ret r /\ wf w n r /\ sval w r = v      (SignedAux)
+     min_neg_one w n a b := sval w a = -(Mod w n / 2) /\ sval w b = -1       (DivSigned)   "MIN / -1"
+     erem SA SB := SA mod Z.abs SB ;  ediv SA SB := (SA - erem SA SB) / SB    (DivSigned)   Euclidean pair
+     next_mult A Bv := ((A + Bv - 1) / Bv) * Bv                               (DivUnsignedWrap)
+     snext SA SB    := SA if SB | SA, else SA + (SB - erem) for SB > 0, SA - erem for SB < 0 (DivSigned)
+     U_div_rem_spec w := the full functional specification of U_div_rem_unchecked (DivSpec)
+   Z.quot / Z.rem are truncated division, `/` and `mod` are Coq's floor division. *)
 From Bnum Require Import Base Prim.
-Theorem C03_placeholder : forall w n ds, 0 <= w -> wf w n ds -> 0 <= uval w ds < Mod w n.
-Proof. exact uval_bounds. Qed.
-Print Assumptions C03_placeholder.
+From Bnum.Model Require Import Digit Core Shift AddSub Mul Div.
+From Bnum.Proofs Require Import DivAux DivValue DivSpec DivDigit DivKnuth Div SignedAux DivUnsignedWrap DivSigned DivFinal.
+
+(* ================= 1. division by one digit ================= *)
+
+Theorem C03_div_rem_wide : forall w low high rhs q r,
+  0 <= w -> 0 <= low < B w -> 0 <= high < rhs -> rhs <= B w ->
+  div_rem_wide w low high rhs = (q, r) ->
+  low + B w * high = q * rhs + r /\ 0 <= r < rhs /\ 0 <= q < B w.
+Proof. exact div_rem_wide_ok. Qed.
+Print Assumptions C03_div_rem_wide.
+
+Theorem C03_div_rem_digit : forall w n a d, 0 < w -> wf w n a -> 0 < d < B w ->
+  wf w n (fst (div_rem_digit w a d)) /\
+  uval w a = uval w (fst (div_rem_digit w a d)) * d + snd (div_rem_digit w a d) /\
+  0 <= snd (div_rem_digit w a d) < d.
+Proof. exact div_rem_digit_ok. Qed.
+Print Assumptions C03_div_rem_digit.
+
+(* ================= 2. unsigned div_rem_unchecked (all dispatch paths incl. Knuth D) ================= *)
+
+(* the quotient-digit estimate of Knuth D, on values (Proofs/DivValue.v) *)
+Theorem C03_knuth_qhat_estimate : forall Bw S wl vl u0 u1 u2 v1 v2 q,
+  0 < Bw -> 1 <= S -> 0 <= wl < S -> 0 <= vl < S ->
+  0 <= u0 < v1 -> 0 <= u1 < Bw -> 0 <= u2 < Bw -> 0 <= v2 < Bw -> v1 < Bw -> Bw <= 2 * v1 ->
+  let t := u0 * Bw + u1 in
+  let W := wl + S * (u2 + Bw * t) in
+  let V := vl + S * (v2 + Bw * v1) in
+  0 <= q -> q * V <= W -> W < (q + 1) * V ->
+  q <= qhat_calc Bw t u2 v1 v2 <= q + 1.
+Proof. exact qhat_calc_ok. Qed.
+Print Assumptions C03_knuth_qhat_estimate.
+
+Theorem C03_knuth_qhat_max : forall Bw S wl vl u0 u1 u2 v1 v2 q,
+  2 <= Bw -> 1 <= S -> 0 <= wl < S -> 0 <= vl < S ->
+  v1 <= u0 -> 0 <= u1 < Bw -> 0 <= u2 < Bw -> 0 <= v2 < Bw -> 0 < v1 < Bw -> Bw <= 2 * v1 ->
+  let t := u0 * Bw + u1 in
+  let W := wl + S * (u2 + Bw * t) in
+  let V := vl + S * (v2 + Bw * v1) in
+  W < V * Bw ->
+  0 <= q -> q * V <= W -> W < (q + 1) * V ->
+  q <= Bw - 1 <= q + 1.
+Proof. exact qhat_max_ok. Qed.
+Print Assumptions C03_knuth_qhat_max.
+
+Theorem C03_U_div_rem_unchecked : forall w n a b, 0 < w -> wf w n a -> wf w n b -> uval w b <> 0 ->
+  wf w n (fst (U_div_rem_unchecked w a b)) /\
+  wf w n (snd (U_div_rem_unchecked w a b)) /\
+  uval w a = uval w (fst (U_div_rem_unchecked w a b)) * uval w b + uval w (snd (U_div_rem_unchecked w a b)) /\
+  0 <= uval w (snd (U_div_rem_unchecked w a b)) < uval w b.
+Proof. exact U_div_rem_unchecked_ok'. Qed.
+Print Assumptions C03_U_div_rem_unchecked.
+
+Theorem C03_U_div_rem_spec : forall w, 0 < w -> U_div_rem_spec w.
+Proof. exact U_div_rem_unchecked_ok. Qed.
+Print Assumptions C03_U_div_rem_spec.
+
+Theorem C03_U_div_rem_unchecked_values : forall w, 0 <= w -> U_div_rem_spec w ->
+  forall n a b, wf w n a -> wf w n b -> uval w b <> 0 ->
+    uval w (fst (U_div_rem_unchecked w a b)) = uval w a / uval w b /\
+    uval w (snd (U_div_rem_unchecked w a b)) = uval w a mod uval w b.
+Proof. exact U_div_rem_spec_div. Qed.
+Print Assumptions C03_U_div_rem_unchecked_values.
+
+(* ================= 3. the API forms (unsigned, then signed) ================= *)
+
+Theorem C03_U_div_rem_ok : forall w n a b,
+  0 < w -> wf w n a -> wf w n b ->
+  (uval w b = 0 -> U_div_rem w a b = Panic) /\
+  (uval w b <> 0 -> exists q r, U_div_rem w a b = Ret (q, r) /\ wf w n q /\ wf w n r /\
+     uval w q = uval w a / uval w b /\ uval w r = uval w a mod uval w b /\
+     uval w a = uval w q * uval w b + uval w r /\ 0 <= uval w r < uval w b).
+Proof. exact U_div_rem_ok_closed. Qed.
+Print Assumptions C03_U_div_rem_ok.
+
+Theorem C03_U_checked_div_ok : forall w n a b,
+  0 < w -> wf w n a -> wf w n b ->
+  (uval w b = 0 -> U_checked_div w a b = None) /\
+  (uval w b <> 0 -> exists q, U_checked_div w a b = Some q /\ wf w n q /\
+     uval w q = uval w a / uval w b).
+Proof. exact U_checked_div_ok_closed. Qed.
+Print Assumptions C03_U_checked_div_ok.
+
+Theorem C03_U_checked_rem_ok : forall w n a b,
+  0 < w -> wf w n a -> wf w n b ->
+  (uval w b = 0 -> U_checked_rem w a b = None) /\
+  (uval w b <> 0 -> exists r, U_checked_rem w a b = Some r /\ wf w n r /\
+     uval w r = uval w a mod uval w b).
+Proof. exact U_checked_rem_ok_closed. Qed.
+Print Assumptions C03_U_checked_rem_ok.
+
+Theorem C03_U_checked_div_euclid_ok : forall w n a b,
+  0 < w -> wf w n a -> wf w n b ->
+  (uval w b = 0 -> U_checked_div_euclid w a b = None) /\
+  (uval w b <> 0 -> exists q, U_checked_div_euclid w a b = Some q /\ wf w n q /\
+     uval w q = uval w a / uval w b).
+Proof. exact U_checked_div_euclid_ok_closed. Qed.
+Print Assumptions C03_U_checked_div_euclid_ok.
+
+Theorem C03_U_checked_rem_euclid_ok : forall w n a b,
+  0 < w -> wf w n a -> wf w n b ->
+  (uval w b = 0 -> U_checked_rem_euclid w a b = None) /\
+  (uval w b <> 0 -> exists r, U_checked_rem_euclid w a b = Some r /\ wf w n r /\
+     uval w r = uval w a mod uval w b).
+Proof. exact U_checked_rem_euclid_ok_closed. Qed.
+Print Assumptions C03_U_checked_rem_euclid_ok.
+
+Theorem C03_U_wrapping_div_ok : forall w n a b,
+  0 < w -> wf w n a -> wf w n b ->
+  (uval w b = 0 -> U_wrapping_div w a b = Panic) /\
+  (uval w b <> 0 -> URet w n (U_wrapping_div w a b) (uval w a / uval w b)).
+Proof. exact U_wrapping_div_ok_closed. Qed.
+Print Assumptions C03_U_wrapping_div_ok.
+
+Theorem C03_U_wrapping_rem_ok : forall w n a b,
+  0 < w -> wf w n a -> wf w n b ->
+  (uval w b = 0 -> U_wrapping_rem w a b = Panic) /\
+  (uval w b <> 0 -> URet w n (U_wrapping_rem w a b) (uval w a mod uval w b)).
+Proof. exact U_wrapping_rem_ok_closed. Qed.
+Print Assumptions C03_U_wrapping_rem_ok.
+
+Theorem C03_U_wrapping_div_euclid_ok : forall w n a b,
+  0 < w -> wf w n a -> wf w n b ->
+  (uval w b = 0 -> U_wrapping_div_euclid w a b = Panic) /\
+  (uval w b <> 0 -> URet w n (U_wrapping_div_euclid w a b) (uval w a / uval w b)).
+Proof. exact U_wrapping_div_euclid_ok_closed. Qed.
+Print Assumptions C03_U_wrapping_div_euclid_ok.
+
+Theorem C03_U_wrapping_rem_euclid_ok : forall w n a b,
+  0 < w -> wf w n a -> wf w n b ->
+  (uval w b = 0 -> U_wrapping_rem_euclid w a b = Panic) /\
+  (uval w b <> 0 -> URet w n (U_wrapping_rem_euclid w a b) (uval w a mod uval w b)).
+Proof. exact U_wrapping_rem_euclid_ok_closed. Qed.
+Print Assumptions C03_U_wrapping_rem_euclid_ok.
+
+Theorem C03_U_div_ok : forall w n a b,
+  0 < w -> wf w n a -> wf w n b ->
+  (uval w b = 0 -> U_div w a b = Panic) /\
+  (uval w b <> 0 -> URet w n (U_div w a b) (uval w a / uval w b)).
+Proof. exact U_div_ok_closed. Qed.
+Print Assumptions C03_U_div_ok.
+
+Theorem C03_U_rem_ok : forall w n a b,
+  0 < w -> wf w n a -> wf w n b ->
+  (uval w b = 0 -> U_rem w a b = Panic) /\
+  (uval w b <> 0 -> URet w n (U_rem w a b) (uval w a mod uval w b)).
+Proof. exact U_rem_ok_closed. Qed.
+Print Assumptions C03_U_rem_ok.
+
+Theorem C03_U_div_euclid_ok : forall w n a b,
+  0 < w -> wf w n a -> wf w n b ->
+  (uval w b = 0 -> U_div_euclid w a b = Panic) /\
+  (uval w b <> 0 -> URet w n (U_div_euclid w a b) (uval w a / uval w b)).
+Proof. exact U_div_euclid_ok_closed. Qed.
+Print Assumptions C03_U_div_euclid_ok.
+
+Theorem C03_U_rem_euclid_ok : forall w n a b,
+  0 < w -> wf w n a -> wf w n b ->
+  (uval w b = 0 -> U_rem_euclid w a b = Panic) /\
+  (uval w b <> 0 -> URet w n (U_rem_euclid w a b) (uval w a mod uval w b)).
+Proof. exact U_rem_euclid_ok_closed. Qed.
+Print Assumptions C03_U_rem_euclid_ok.
+
+Theorem C03_U_saturating_div_ok : forall w n a b,
+  0 < w -> wf w n a -> wf w n b ->
+  (uval w b = 0 -> U_saturating_div w a b = Panic) /\
+  (uval w b <> 0 -> URet w n (U_saturating_div w a b) (uval w a / uval w b)).
+Proof. exact U_saturating_div_ok_closed. Qed.
+Print Assumptions C03_U_saturating_div_ok.
+
+Theorem C03_U_strict_div_ok : forall w n a b,
+  0 < w -> wf w n a -> wf w n b ->
+  (uval w b = 0 -> U_strict_div w a b = Panic) /\
+  (uval w b <> 0 -> URet w n (U_strict_div w a b) (uval w a / uval w b)).
+Proof. exact U_strict_div_ok_closed. Qed.
+Print Assumptions C03_U_strict_div_ok.
+
+Theorem C03_U_strict_rem_ok : forall w n a b,
+  0 < w -> wf w n a -> wf w n b ->
+  (uval w b = 0 -> U_strict_rem w a b = Panic) /\
+  (uval w b <> 0 -> URet w n (U_strict_rem w a b) (uval w a mod uval w b)).
+Proof. exact U_strict_rem_ok_closed. Qed.
+Print Assumptions C03_U_strict_rem_ok.
+
+Theorem C03_U_div_floor_ok : forall w n a b,
+  0 < w -> wf w n a -> wf w n b ->
+  (uval w b = 0 -> U_div_floor w a b = Panic) /\
+  (uval w b <> 0 -> URet w n (U_div_floor w a b) (uval w a / uval w b)).
+Proof. exact U_div_floor_ok_closed. Qed.
+Print Assumptions C03_U_div_floor_ok.
+
+Theorem C03_U_overflowing_div_ok : forall w n a b,
+  0 < w -> wf w n a -> wf w n b ->
+  (uval w b = 0 -> U_overflowing_div w a b = Panic) /\
+  (uval w b <> 0 -> exists q, U_overflowing_div w a b = Ret (q, false) /\ wf w n q /\
+     uval w q = uval w a / uval w b).
+Proof. exact U_overflowing_div_ok_closed. Qed.
+Print Assumptions C03_U_overflowing_div_ok.
+
+Theorem C03_U_overflowing_rem_ok : forall w n a b,
+  0 < w -> wf w n a -> wf w n b ->
+  (uval w b = 0 -> U_overflowing_rem w a b = Panic) /\
+  (uval w b <> 0 -> exists r, U_overflowing_rem w a b = Ret (r, false) /\ wf w n r /\
+     uval w r = uval w a mod uval w b).
+Proof. exact U_overflowing_rem_ok_closed. Qed.
+Print Assumptions C03_U_overflowing_rem_ok.
+
+Theorem C03_U_overflowing_div_euclid_ok : forall w n a b,
+  0 < w -> wf w n a -> wf w n b ->
+  (uval w b = 0 -> U_overflowing_div_euclid w a b = Panic) /\
+  (uval w b <> 0 -> exists q, U_overflowing_div_euclid w a b = Ret (q, false) /\ wf w n q /\
+     uval w q = uval w a / uval w b).
+Proof. exact U_overflowing_div_euclid_ok_closed. Qed.
+Print Assumptions C03_U_overflowing_div_euclid_ok.
+
+Theorem C03_U_overflowing_rem_euclid_ok : forall w n a b,
+  0 < w -> wf w n a -> wf w n b ->
+  (uval w b = 0 -> U_overflowing_rem_euclid w a b = Panic) /\
+  (uval w b <> 0 -> exists r, U_overflowing_rem_euclid w a b = Ret (r, false) /\ wf w n r /\
+     uval w r = uval w a mod uval w b).
+Proof. exact U_overflowing_rem_euclid_ok_closed. Qed.
+Print Assumptions C03_U_overflowing_rem_euclid_ok.
+
+Theorem C03_U_div_ceil_ok : forall dbg w n a b,
+  0 < w -> wf w n a -> wf w n b ->
+  (uval w b = 0 -> U_div_ceil dbg w a b = Panic) /\
+  (uval w b <> 0 -> URet w n (U_div_ceil dbg w a b) ((uval w a + uval w b - 1) / uval w b)).
+Proof. exact U_div_ceil_ok_closed. Qed.
+Print Assumptions C03_U_div_ceil_ok.
+
+Theorem C03_U_next_multiple_of_ok : forall dbg w n a b,
+  0 < w -> wf w n a -> wf w n b ->
+  (uval w b = 0 -> U_next_multiple_of dbg w a b = Panic) /\
+  (uval w b <> 0 -> next_mult (uval w a) (uval w b) < Mod w n ->
+     URet w n (U_next_multiple_of dbg w a b) (next_mult (uval w a) (uval w b))) /\
+  (uval w b <> 0 -> Mod w n <= next_mult (uval w a) (uval w b) ->
+     if dbg then U_next_multiple_of dbg w a b = Panic
+     else URet w n (U_next_multiple_of dbg w a b) (next_mult (uval w a) (uval w b) mod Mod w n)).
+Proof. exact U_next_multiple_of_ok_closed. Qed.
+Print Assumptions C03_U_next_multiple_of_ok.
+
+Theorem C03_U_checked_next_multiple_of_ok : forall dbg w n a b,
+  0 < w -> wf w n a -> wf w n b ->
+  (uval w b = 0 -> U_checked_next_multiple_of dbg w a b = Ret None) /\
+  (uval w b <> 0 -> next_mult (uval w a) (uval w b) < Mod w n ->
+     exists r, U_checked_next_multiple_of dbg w a b = Ret (Some r) /\ wf w n r /\
+       uval w r = next_mult (uval w a) (uval w b)) /\
+  (uval w b <> 0 -> Mod w n <= next_mult (uval w a) (uval w b) ->
+     U_checked_next_multiple_of dbg w a b = Ret None).
+Proof. exact U_checked_next_multiple_of_ok_closed. Qed.
+Print Assumptions C03_U_checked_next_multiple_of_ok.
+
+Theorem C03_I_div_rem_unchecked_ok : forall dbg w n a b,
+  0 < w -> (0 < n)%nat -> wf w n a -> wf w n b ->
+  sval w b <> 0 -> ~ min_neg_one w n a b ->
+  exists q r, I_div_rem_unchecked dbg w a b = Ret (q, r) /\ wf w n q /\ wf w n r /\
+    sval w q = Z.quot (sval w a) (sval w b) /\ sval w r = Z.rem (sval w a) (sval w b).
+Proof. exact I_div_rem_unchecked_ok_closed. Qed.
+Print Assumptions C03_I_div_rem_unchecked_ok.
+
+Theorem C03_I_div_rem_unchecked_min_neg_one : forall dbg w n a b,
+  0 < w -> (0 < n)%nat -> wf w n a -> wf w n b -> min_neg_one w n a b ->
+  exists q r, I_div_rem_unchecked dbg w a b = Ret (q, r) /\ wf w n q /\ wf w n r /\
+    sval w q = - (Mod w n / 2) /\ sval w r = 0.
+Proof. exact I_div_rem_unchecked_min_neg_one_closed. Qed.
+Print Assumptions C03_I_div_rem_unchecked_min_neg_one.
+
+Theorem C03_I_overflowing_div_ok : forall dbg w n a b,
+  0 < w -> (0 < n)%nat -> wf w n a -> wf w n b ->
+  (sval w b = 0 -> I_overflowing_div dbg w a b = Panic) /\
+  (min_neg_one w n a b -> I_overflowing_div dbg w a b = Ret (a, true)) /\
+  (sval w b <> 0 -> ~ min_neg_one w n a b ->
+     exists q, I_overflowing_div dbg w a b = Ret (q, false) /\ wf w n q /\
+       sval w q = Z.quot (sval w a) (sval w b)).
+Proof. exact I_overflowing_div_ok_closed. Qed.
+Print Assumptions C03_I_overflowing_div_ok.
+
+Theorem C03_I_overflowing_rem_ok : forall dbg w n a b,
+  0 < w -> (0 < n)%nat -> wf w n a -> wf w n b ->
+  (sval w b = 0 -> I_overflowing_rem dbg w a b = Panic) /\
+  (min_neg_one w n a b -> I_overflowing_rem dbg w a b = Ret (ZERO n, true)) /\
+  (sval w b <> 0 -> ~ min_neg_one w n a b ->
+     exists r, I_overflowing_rem dbg w a b = Ret (r, false) /\ wf w n r /\
+       sval w r = Z.rem (sval w a) (sval w b)).
+Proof. exact I_overflowing_rem_ok_closed. Qed.
+Print Assumptions C03_I_overflowing_rem_ok.
+
+Theorem C03_I_div_ok : forall dbg w n a b,
+  0 < w -> (0 < n)%nat -> wf w n a -> wf w n b ->
+  (sval w b = 0 \/ min_neg_one w n a b -> I_div dbg w a b = Panic) /\
+  (sval w b <> 0 -> ~ min_neg_one w n a b ->
+     SRet w n (I_div dbg w a b) (Z.quot (sval w a) (sval w b))).
+Proof. exact I_div_ok_closed. Qed.
+Print Assumptions C03_I_div_ok.
+
+Theorem C03_I_rem_ok : forall dbg w n a b,
+  0 < w -> (0 < n)%nat -> wf w n a -> wf w n b ->
+  (sval w b = 0 \/ min_neg_one w n a b -> I_rem dbg w a b = Panic) /\
+  (sval w b <> 0 -> ~ min_neg_one w n a b ->
+     SRet w n (I_rem dbg w a b) (Z.rem (sval w a) (sval w b))).
+Proof. exact I_rem_ok_closed. Qed.
+Print Assumptions C03_I_rem_ok.
+
+Theorem C03_I_strict_div_ok : forall dbg w n a b,
+  0 < w -> (0 < n)%nat -> wf w n a -> wf w n b ->
+  (sval w b = 0 \/ min_neg_one w n a b -> I_strict_div dbg w a b = Panic) /\
+  (sval w b <> 0 -> ~ min_neg_one w n a b ->
+     SRet w n (I_strict_div dbg w a b) (Z.quot (sval w a) (sval w b))).
+Proof. exact I_strict_div_ok_closed. Qed.
+Print Assumptions C03_I_strict_div_ok.
+
+Theorem C03_I_strict_rem_ok : forall dbg w n a b,
+  0 < w -> (0 < n)%nat -> wf w n a -> wf w n b ->
+  (sval w b = 0 \/ min_neg_one w n a b -> I_strict_rem dbg w a b = Panic) /\
+  (sval w b <> 0 -> ~ min_neg_one w n a b ->
+     SRet w n (I_strict_rem dbg w a b) (Z.rem (sval w a) (sval w b))).
+Proof. exact I_strict_rem_ok_closed. Qed.
+Print Assumptions C03_I_strict_rem_ok.
+
+Theorem C03_I_overflowing_div_euclid_ok : forall dbg w n a b,
+  0 < w -> (0 < n)%nat -> wf w n a -> wf w n b ->
+  (sval w b = 0 -> I_overflowing_div_euclid dbg w a b = Panic) /\
+  (min_neg_one w n a b -> I_overflowing_div_euclid dbg w a b = Ret (a, true)) /\
+  (sval w b <> 0 -> ~ min_neg_one w n a b ->
+     exists q, I_overflowing_div_euclid dbg w a b = Ret (q, false) /\ wf w n q /\
+       sval w q = ediv (sval w a) (sval w b)).
+Proof. exact I_overflowing_div_euclid_ok_closed. Qed.
+Print Assumptions C03_I_overflowing_div_euclid_ok.
+
+Theorem C03_I_overflowing_rem_euclid_ok : forall dbg w n a b,
+  0 < w -> (0 < n)%nat -> wf w n a -> wf w n b ->
+  (sval w b = 0 -> I_overflowing_rem_euclid dbg w a b = Panic) /\
+  (min_neg_one w n a b -> I_overflowing_rem_euclid dbg w a b = Ret (ZERO n, true)) /\
+  (sval w b <> 0 -> ~ min_neg_one w n a b ->
+     exists r, I_overflowing_rem_euclid dbg w a b = Ret (r, false) /\ wf w n r /\
+       sval w r = erem (sval w a) (sval w b)).
+Proof. exact I_overflowing_rem_euclid_ok_closed. Qed.
+Print Assumptions C03_I_overflowing_rem_euclid_ok.
+
+Theorem C03_I_checked_div_ok : forall dbg w n a b,
+  0 < w -> (0 < n)%nat -> wf w n a -> wf w n b ->
+  (sval w b = 0 \/ min_neg_one w n a b -> I_checked_div dbg w a b = Ret None) /\
+  (sval w b <> 0 -> ~ min_neg_one w n a b ->
+     exists x, I_checked_div dbg w a b = Ret (Some x) /\ wf w n x /\
+       sval w x = Z.quot (sval w a) (sval w b)).
+Proof. exact I_checked_div_ok_closed. Qed.
+Print Assumptions C03_I_checked_div_ok.
+
+Theorem C03_I_checked_rem_ok : forall dbg w n a b,
+  0 < w -> (0 < n)%nat -> wf w n a -> wf w n b ->
+  (sval w b = 0 \/ min_neg_one w n a b -> I_checked_rem dbg w a b = Ret None) /\
+  (sval w b <> 0 -> ~ min_neg_one w n a b ->
+     exists x, I_checked_rem dbg w a b = Ret (Some x) /\ wf w n x /\
+       sval w x = Z.rem (sval w a) (sval w b)).
+Proof. exact I_checked_rem_ok_closed. Qed.
+Print Assumptions C03_I_checked_rem_ok.
+
+Theorem C03_I_checked_div_euclid_ok : forall dbg w n a b,
+  0 < w -> (0 < n)%nat -> wf w n a -> wf w n b ->
+  (sval w b = 0 \/ min_neg_one w n a b -> I_checked_div_euclid dbg w a b = Ret None) /\
+  (sval w b <> 0 -> ~ min_neg_one w n a b ->
+     exists x, I_checked_div_euclid dbg w a b = Ret (Some x) /\ wf w n x /\
+       sval w x = ediv (sval w a) (sval w b)).
+Proof. exact I_checked_div_euclid_ok_closed. Qed.
+Print Assumptions C03_I_checked_div_euclid_ok.
+
+Theorem C03_I_checked_rem_euclid_ok : forall dbg w n a b,
+  0 < w -> (0 < n)%nat -> wf w n a -> wf w n b ->
+  (sval w b = 0 \/ min_neg_one w n a b -> I_checked_rem_euclid dbg w a b = Ret None) /\
+  (sval w b <> 0 -> ~ min_neg_one w n a b ->
+     exists x, I_checked_rem_euclid dbg w a b = Ret (Some x) /\ wf w n x /\
+       sval w x = erem (sval w a) (sval w b)).
+Proof. exact I_checked_rem_euclid_ok_closed. Qed.
+Print Assumptions C03_I_checked_rem_euclid_ok.
+
+Theorem C03_I_wrapping_div_ok : forall dbg w n a b,
+  0 < w -> (0 < n)%nat -> wf w n a -> wf w n b ->
+  (sval w b = 0 -> I_wrapping_div dbg w a b = Panic) /\
+  (min_neg_one w n a b -> SRet w n (I_wrapping_div dbg w a b) (- (Mod w n / 2))) /\
+  (sval w b <> 0 -> ~ min_neg_one w n a b ->
+     SRet w n (I_wrapping_div dbg w a b) (Z.quot (sval w a) (sval w b))).
+Proof. exact I_wrapping_div_ok_closed. Qed.
+Print Assumptions C03_I_wrapping_div_ok.
+
+Theorem C03_I_wrapping_rem_ok : forall dbg w n a b,
+  0 < w -> (0 < n)%nat -> wf w n a -> wf w n b ->
+  (sval w b = 0 -> I_wrapping_rem dbg w a b = Panic) /\
+  (min_neg_one w n a b -> SRet w n (I_wrapping_rem dbg w a b) 0) /\
+  (sval w b <> 0 -> ~ min_neg_one w n a b ->
+     SRet w n (I_wrapping_rem dbg w a b) (Z.rem (sval w a) (sval w b))).
+Proof. exact I_wrapping_rem_ok_closed. Qed.
+Print Assumptions C03_I_wrapping_rem_ok.
+
+Theorem C03_I_wrapping_div_euclid_ok : forall dbg w n a b,
+  0 < w -> (0 < n)%nat -> wf w n a -> wf w n b ->
+  (sval w b = 0 -> I_wrapping_div_euclid dbg w a b = Panic) /\
+  (min_neg_one w n a b -> SRet w n (I_wrapping_div_euclid dbg w a b) (- (Mod w n / 2))) /\
+  (sval w b <> 0 -> ~ min_neg_one w n a b ->
+     SRet w n (I_wrapping_div_euclid dbg w a b) (ediv (sval w a) (sval w b))).
+Proof. exact I_wrapping_div_euclid_ok_closed. Qed.
+Print Assumptions C03_I_wrapping_div_euclid_ok.
+
+Theorem C03_I_wrapping_rem_euclid_ok : forall dbg w n a b,
+  0 < w -> (0 < n)%nat -> wf w n a -> wf w n b ->
+  (sval w b = 0 -> I_wrapping_rem_euclid dbg w a b = Panic) /\
+  (min_neg_one w n a b -> SRet w n (I_wrapping_rem_euclid dbg w a b) 0) /\
+  (sval w b <> 0 -> ~ min_neg_one w n a b ->
+     SRet w n (I_wrapping_rem_euclid dbg w a b) (erem (sval w a) (sval w b))).
+Proof. exact I_wrapping_rem_euclid_ok_closed. Qed.
+Print Assumptions C03_I_wrapping_rem_euclid_ok.
+
+Theorem C03_I_wrapping_rem_euclid_total : forall dbg w n a b,
+  0 < w -> (0 < n)%nat -> wf w n a -> wf w n b -> sval w b <> 0 ->
+  SRet w n (I_wrapping_rem_euclid dbg w a b) (erem (sval w a) (sval w b)).
+Proof. exact I_wrapping_rem_euclid_total_closed. Qed.
+Print Assumptions C03_I_wrapping_rem_euclid_total.
+
+Theorem C03_I_saturating_div_ok : forall dbg w n a b,
+  0 < w -> (0 < n)%nat -> wf w n a -> wf w n b ->
+  (sval w b = 0 -> I_saturating_div dbg w a b = Panic) /\
+  (min_neg_one w n a b -> I_saturating_div dbg w a b = Ret (IMAX w n)) /\
+  (sval w b <> 0 -> ~ min_neg_one w n a b ->
+     SRet w n (I_saturating_div dbg w a b) (Z.quot (sval w a) (sval w b))).
+Proof. exact I_saturating_div_ok_closed. Qed.
+Print Assumptions C03_I_saturating_div_ok.
+
+Theorem C03_I_div_euclid_ok : forall dbg w n a b,
+  0 < w -> (0 < n)%nat -> wf w n a -> wf w n b ->
+  (sval w b = 0 \/ min_neg_one w n a b -> I_div_euclid dbg w a b = Panic) /\
+  (sval w b <> 0 -> ~ min_neg_one w n a b ->
+     SRet w n (I_div_euclid dbg w a b) (ediv (sval w a) (sval w b))).
+Proof. exact I_div_euclid_ok_closed. Qed.
+Print Assumptions C03_I_div_euclid_ok.
+
+Theorem C03_I_rem_euclid_ok : forall dbg w n a b,
+  0 < w -> (0 < n)%nat -> wf w n a -> wf w n b ->
+  (sval w b = 0 \/ min_neg_one w n a b -> I_rem_euclid dbg w a b = Panic) /\
+  (sval w b <> 0 -> ~ min_neg_one w n a b ->
+     SRet w n (I_rem_euclid dbg w a b) (erem (sval w a) (sval w b))).
+Proof. exact I_rem_euclid_ok_closed. Qed.
+Print Assumptions C03_I_rem_euclid_ok.
+
+Theorem C03_I_euclid_pair : forall dbg w n a b,
+  0 < w -> (0 < n)%nat -> wf w n a -> wf w n b ->
+  sval w b <> 0 -> ~ min_neg_one w n a b ->
+  exists q r, I_div_euclid dbg w a b = Ret q /\ I_rem_euclid dbg w a b = Ret r /\
+    wf w n q /\ wf w n r /\
+    sval w q * sval w b + sval w r = sval w a /\ 0 <= sval w r < Z.abs (sval w b).
+Proof. exact I_euclid_pair_closed. Qed.
+Print Assumptions C03_I_euclid_pair.
+
+Theorem C03_I_div_floor_ok : forall dbg w n a b,
+  0 < w -> (0 < n)%nat -> wf w n a -> wf w n b ->
+  (sval w b = 0 -> I_div_floor dbg w a b = Panic) /\
+  (min_neg_one w n a b -> SRet w n (I_div_floor dbg w a b) (- (Mod w n / 2))) /\
+  (sval w b <> 0 -> ~ min_neg_one w n a b ->
+     SRet w n (I_div_floor dbg w a b) (sval w a / sval w b)).
+Proof. exact I_div_floor_ok_closed. Qed.
+Print Assumptions C03_I_div_floor_ok.
+
+Theorem C03_I_div_ceil_ok : forall dbg w n a b,
+  0 < w -> (0 < n)%nat -> wf w n a -> wf w n b ->
+  (sval w b = 0 -> I_div_ceil dbg w a b = Panic) /\
+  (min_neg_one w n a b -> SRet w n (I_div_ceil dbg w a b) (- (Mod w n / 2))) /\
+  (sval w b <> 0 -> ~ min_neg_one w n a b ->
+     SRet w n (I_div_ceil dbg w a b) (- ((- sval w a) / sval w b))).
+Proof. exact I_div_ceil_ok_closed. Qed.
+Print Assumptions C03_I_div_ceil_ok.
+
+Theorem C03_I_next_multiple_of_ok : forall dbg w n a b,
+  0 < w -> (0 < n)%nat -> wf w n a -> wf w n b ->
+  (sval w b = 0 -> I_next_multiple_of dbg w a b = Panic) /\
+  (sval w b <> 0 -> inS (Mod w n) (snext (sval w a) (sval w b)) = true ->
+     SRet w n (I_next_multiple_of dbg w a b) (snext (sval w a) (sval w b))) /\
+  (sval w b <> 0 -> inS (Mod w n) (snext (sval w a) (sval w b)) = false ->
+     if dbg then I_next_multiple_of dbg w a b = Panic
+     else SRet w n (I_next_multiple_of dbg w a b)
+            (wrapS (Mod w n) (snext (sval w a) (sval w b)))).
+Proof. exact I_next_multiple_of_ok_closed. Qed.
+Print Assumptions C03_I_next_multiple_of_ok.
+
+Theorem C03_I_checked_next_multiple_of_ok : forall dbg w n a b,
+  0 < w -> (0 < n)%nat -> wf w n a -> wf w n b ->
+  (sval w b = 0 -> I_checked_next_multiple_of dbg w a b = Ret None) /\
+  (sval w b <> 0 -> inS (Mod w n) (snext (sval w a) (sval w b)) = true ->
+     exists r, I_checked_next_multiple_of dbg w a b = Ret (Some r) /\ wf w n r /\
+       sval w r = snext (sval w a) (sval w b)) /\
+  (sval w b <> 0 -> inS (Mod w n) (snext (sval w a) (sval w b)) = false ->
+     I_checked_next_multiple_of dbg w a b = Ret None).
+Proof. exact I_checked_next_multiple_of_ok_closed. Qed.
+Print Assumptions C03_I_checked_next_multiple_of_ok.
+
+Theorem C03_I_checked_zero_divisor : forall dbg w n a b,
+  0 < w -> (0 < n)%nat -> wf w n a -> wf w n b -> sval w b = 0 ->
+  I_checked_div dbg w a b = Ret None /\
+  I_checked_rem dbg w a b = Ret None /\
+  I_checked_div_euclid dbg w a b = Ret None /\
+  I_checked_rem_euclid dbg w a b = Ret None /\
+  I_checked_next_multiple_of dbg w a b = Ret None.
+Proof. exact I_checked_zero_divisor_closed. Qed.
+Print Assumptions C03_I_checked_zero_divisor.
+
+Theorem C03_I_zero_divisor_panics : forall dbg w n a b,
+  0 < w -> (0 < n)%nat -> wf w n a -> wf w n b -> sval w b = 0 ->
+  I_div dbg w a b = Panic /\ I_rem dbg w a b = Panic /\
+  I_div_euclid dbg w a b = Panic /\ I_rem_euclid dbg w a b = Panic /\
+  I_overflowing_div dbg w a b = Panic /\ I_overflowing_rem dbg w a b = Panic /\
+  I_overflowing_div_euclid dbg w a b = Panic /\ I_overflowing_rem_euclid dbg w a b = Panic /\
+  I_wrapping_div dbg w a b = Panic /\ I_wrapping_rem dbg w a b = Panic /\
+  I_wrapping_div_euclid dbg w a b = Panic /\ I_wrapping_rem_euclid dbg w a b = Panic /\
+  I_saturating_div dbg w a b = Panic /\
+  I_div_floor dbg w a b = Panic /\ I_div_ceil dbg w a b = Panic /\
+  I_next_multiple_of dbg w a b = Panic.
+Proof. exact I_zero_divisor_panics_closed. Qed.
+Print Assumptions C03_I_zero_divisor_panics.
+
+Theorem C03_I_min_neg_one : forall dbg w n a b,
+  0 < w -> (0 < n)%nat -> wf w n a -> wf w n b -> min_neg_one w n a b ->
+  I_checked_div dbg w a b = Ret None /\
+  I_checked_rem dbg w a b = Ret None /\
+  I_checked_div_euclid dbg w a b = Ret None /\
+  I_checked_rem_euclid dbg w a b = Ret None /\
+  I_overflowing_div dbg w a b = Ret (a, true) /\
+  I_overflowing_div_euclid dbg w a b = Ret (a, true) /\
+  I_overflowing_rem dbg w a b = Ret (ZERO n, true) /\
+  I_overflowing_rem_euclid dbg w a b = Ret (ZERO n, true) /\
+  sval w a = - (Mod w n / 2) /\ sval w (ZERO n) = 0 /\
+  I_wrapping_div dbg w a b = Ret a /\
+  I_wrapping_div_euclid dbg w a b = Ret a /\
+  I_wrapping_rem dbg w a b = Ret (ZERO n) /\
+  I_wrapping_rem_euclid dbg w a b = Ret (ZERO n) /\
+  I_saturating_div dbg w a b = Ret (IMAX w n) /\ sval w (IMAX w n) = Mod w n / 2 - 1 /\
+  I_div dbg w a b = Panic /\ I_rem dbg w a b = Panic /\
+  I_div_euclid dbg w a b = Panic /\ I_rem_euclid dbg w a b = Panic /\
+  SRet w n (I_div_floor dbg w a b) (- (Mod w n / 2)) /\
+  SRet w n (I_div_ceil dbg w a b) (- (Mod w n / 2)) /\
+  I_next_multiple_of dbg w a b = Ret a /\
+  I_checked_next_multiple_of dbg w a b = Ret (Some a).
+Proof. exact I_min_neg_one_closed. Qed.
+Print Assumptions C03_I_min_neg_one.
+
+(* ================= characterisations of the targets used above ================= *)
+
+Theorem C03_next_mult_least : forall A Bv, 0 <= A -> 0 < Bv ->
+  (exists k, next_mult A Bv = k * Bv) /\ A <= next_mult A Bv /\
+  (forall k, A <= k * Bv -> next_mult A Bv <= k * Bv).
+Proof. exact next_mult_least. Qed.
+Print Assumptions C03_next_mult_least.
+
+Theorem C03_snext_pos : forall SA SB, 0 < SB ->
+  (exists k, snext SA SB = k * SB) /\ SA <= snext SA SB /\
+  (forall k, SA <= k * SB -> snext SA SB <= k * SB).
+Proof. exact snext_char_pos. Qed.
+Print Assumptions C03_snext_pos.
+
+Theorem C03_snext_neg : forall SA SB, SB < 0 ->
+  (exists k, snext SA SB = k * SB) /\ snext SA SB <= SA /\
+  (forall k, k * SB <= SA -> k * SB <= snext SA SB).
+Proof. exact snext_char_neg. Qed.
+Print Assumptions C03_snext_neg.
+
+Theorem C03_euclid_spec : forall SA SB, SB <> 0 ->
+  ediv SA SB * SB + erem SA SB = SA /\ 0 <= erem SA SB < Z.abs SB.
+Proof. exact euclid_spec. Qed.
+Print Assumptions C03_euclid_spec.
+
+Theorem C03_euclid_unique : forall SA SB q r, SB <> 0 -> SA = q * SB + r -> 0 <= r < Z.abs SB ->
+  q = ediv SA SB /\ r = erem SA SB.
+Proof. exact euclid_unique. Qed.
+Print Assumptions C03_euclid_unique.
+
+Theorem C03_ceil_char : forall SA SB, SB <> 0 ->
+  let c := - ((- SA) / SB) in
+  (0 < SB -> (c - 1) * SB < SA <= c * SB) /\ (SB < 0 -> c * SB <= SA < (c - 1) * SB).
+Proof. exact ceil_char. Qed.
+Print Assumptions C03_ceil_char.
+
+(* ================= examples: the hypotheses are satisfiable, every Knuth D branch is exercised ================= *)
+
+Example ex_div_rem_digit : div_rem_digit 8 [0x34; 0x12; 0xFF] 7 = ([80; 112; 36], 4) /\
+  wfb 8 3 [0x34; 0x12; 0xFF] = true.
+Proof. vm_compute. split; reflexivity. Qed.
+
+(* dispatch: a < b, a = b, one-digit divisor *)
+Example ex_dispatch :
+  U_div_rem_unchecked 8 [1; 2; 0] [0; 0; 1] = ([0; 0; 0], [1; 2; 0]) /\
+  U_div_rem_unchecked 8 [1; 2; 3] [1; 2; 3] = ([1; 0; 0], [0; 0; 0]) /\
+  U_div_rem_unchecked 8 [1; 2; 3] [10; 0; 0] = ([0; 77; 0], [1; 0; 0]).
+Proof. vm_compute. repeat split. Qed.
+
+(* Knuth D, normalisation shift 5, two quotient digits *)
+Example ex_knuth_shift :
+  let a := [0xFF; 0xFF; 0xFF; 0xFF] in let b := [0x34; 0x12; 0x05; 0] in
+  U_div_rem_unchecked 8 a b = ([123; 50; 0; 0], [3; 25; 2; 0]) /\
+  uval 8 a = uval 8 [123; 50; 0; 0] * uval 8 b + uval 8 [3; 25; 2; 0] /\
+  wfb 8 4 a = true /\ wfb 8 4 b = true /\ u_leading_zeros 8 0x05 = 5.
+Proof. vm_compute. repeat split. Qed.
+
+(* no correction, no add-back *)
+Example ex_knuth_plain :
+  let a := [197; 100; 194; 45] in let b := [68; 32; 193; 0] in
+  fst (U_div_rem_unchecked 8 a b) = [60; 0; 0; 0] /\ uval 8 (snd (U_div_rem_unchecked 8 a b)) = 8312021 /\
+  knuth_qhat 8 (Remainder_new 8 a 0) 0 3 193 32 = 60.
+Proof. vm_compute. repeat split. Qed.
+
+(* one and two corrections of the estimate *)
+Example ex_knuth_corrections :
+  fst (U_div_rem_unchecked 8 [17; 164; 121; 129] [224; 253; 187; 0]) = [176; 0; 0; 0] /\
+  (121 + 129 * 256) / 187 = 177 /\
+  fst (U_div_rem_unchecked 8 [61; 64; 163; 137] [105; 218; 142; 0]) = [246; 0; 0; 0] /\
+  (163 + 137 * 256) / 142 = 248.
+Proof. vm_compute. repeat split. Qed.
+
+(* add-back: the corrected estimate 49 is still one too large, Remainder_sub borrows *)
+Example ex_knuth_addback :
+  let a := [31; 80; 202; 34] in let b := [241; 194; 181; 0] in
+  let u := Remainder_new 8 a 0 in
+  U_div_rem_unchecked 8 a b = ([48; 0; 0; 0], [239; 194; 181; 0]) /\
+  knuth_qhat 8 u 0 3 181 194 = 49 /\
+  snd (Remainder_sub 8 u (Mul_new 8 b 49) 0 3) = true /\
+  uval 8 a = 48 * uval 8 b + uval 8 [239; 194; 181; 0].
+Proof. vm_compute. repeat split. Qed.
+
+(* the branch u_jn >= v_{n-1}: estimate B-1, exact in the first case, add-back in the second *)
+Example ex_knuth_qhat_max :
+  fst (U_div_rem_unchecked 8 [8; 173; 162; 182] [136; 251; 182; 0]) = [255; 0; 0; 0] /\
+  knuth_qhat 8 [8; 173; 162; 182; 0] 0 3 182 251 = 255 /\
+  fst (U_div_rem_unchecked 8 [61; 197; 57; 131] [187; 255; 131; 0]) = [254; 0; 0; 0] /\
+  knuth_qhat 8 [61; 197; 57; 131; 0] 0 3 131 255 = 255.
+Proof. vm_compute. repeat split. Qed.
+
+(* signed: truncation, Euclid, floor, ceil on -7 / 2 and the MIN / -1 behaviour (w = 8, n = 1) *)
+Example ex_signed :
+  I_div true 8 [249] [2] = Ret [253] /\ I_rem true 8 [249] [2] = Ret [255] /\
+  I_div_euclid true 8 [249] [2] = Ret [252] /\ I_rem_euclid true 8 [249] [2] = Ret [1] /\
+  I_div_floor true 8 [249] [2] = Ret [252] /\ I_div_ceil true 8 [249] [2] = Ret [253] /\
+  I_div true 8 [128] [255] = Panic /\ I_div false 8 [128] [255] = Panic /\
+  I_checked_div true 8 [128] [255] = Ret None /\
+  I_overflowing_div false 8 [128] [255] = Ret ([128], true) /\
+  I_overflowing_rem false 8 [128] [255] = Ret ([0], true) /\
+  I_saturating_div true 8 [128] [255] = Ret [127] /\
+  I_checked_div true 8 [5] [0] = Ret None /\ I_div false 8 [5] [0] = Panic /\
+  I_div_floor true 8 [128] [255] = Ret [128].
+Proof. vm_compute. repeat split. Qed.
